@@ -722,6 +722,79 @@ def reader_addresses(repo, n):
     return {'reads': ok[0][1], 'loops': ok[0][2]}
 
 
+def accessor_conditions(repo, n):
+    """QArray.at(i_0..i_{n-1}) on bounds [(L_k, U_k)]: the constraints
+    under which it does not raise, and the nested-list position it reads."""
+    cls = repo.cls('qvm.eval', 'QArray')
+    fn = repo.find_method(cls, 'at') if cls else None
+    if fn is None:
+        raise AnalysisError('QArray.at not found')
+    hooks = Hooks(repo)
+    hooks.extra['EvalError'] = 'EvalError'
+    class NotA(AbsObj):
+        def instancecheck_(self, x):
+            return False
+    hooks.extra['QStruct'] = NotA()
+
+    class Data(AbsObj):
+        def __init__(self, path):
+            self.path = path
+
+        def getitem_(self, key, interp):
+            p = Poly.lift(key)
+            if p is None:
+                raise Unmodelled('non-numeric subscript of array data')
+            return Data(self.path + (p,))
+
+        def getattr_(self, a, interp):
+            if a == 'value':
+                return self
+            raise Unmodelled(f'element.{a}')
+
+        def eq_(self, other):
+            return other is self
+
+    class Self(AbsObj):
+        def getattr_(self, a, interp):
+            if a == 'bounds':
+                return [(Poly.var(f'L{k}'), Poly.var(f'U{k}'))
+                        for k in range(n)]
+            if a == 'array_data':
+                return Data(())
+            if a == 'default_value':
+                return 0
+            raise Unmodelled(f'QArray.{a}')
+
+    def run(oracle):
+        del Poly.TRACE[:]
+        interp = Interp(hooks, oracle)
+        clo = Closure(fn.node, hooks.module_env('qvm.eval'), name='at')
+        try:
+            v = clo.call_([Self()] + [Poly.var(f'i{a}') for a in range(n)],
+                          {}, interp)
+        except Raised as r:
+            return ('raise', r.cls_name, list(Poly.TRACE))
+        return ('ok', v, list(Poly.TRACE))
+    try:
+        res = _paths(run)
+    except Unmodelled as u:
+        return {'unmodelled': str(u)}
+    ok = [r for r in res if r[0] == 'ok' and isinstance(r[1], Data)]
+    other = sorted({r[1] for r in res if r[0] == 'raise'})
+    if len(ok) != 1:
+        return {'unmodelled': f'QArray.at: {len(ok)} element-returning '
+                              f'paths of {len(res)}'}
+    # every undecided comparison on the surviving path was false
+    cons = set()
+    for op, a, b in ok[0][2]:
+        d = {'<': a - b, '<=': a - b - Poly.const(1),
+             '>': b - a, '>=': b - a - Poly.const(1)}.get(op)
+        if d is not None:
+            cons.add(d)       # d >= 0 holds on the accepted path
+    return {'accepted_when_nonneg': cons, 'position': ok[0][1].path,
+            'raises': other}
+
+
 def analyse(repo, max_rank=3):
     out = {}
     for n in range(1, max_rank + 1):
@@ -733,6 +806,7 @@ def analyse(repo, max_rank=3):
         entry['static'] = reserved_static(repo, n)
         entry['dynamic'] = reserved_dynamic(repo, n)
         entry['reader'] = reader_addresses(repo, n)
+        entry['accessor'] = accessor_conditions(repo, n)
         out[n] = entry
     return out
 
@@ -899,4 +973,65 @@ def check_reader_side(ctx, pid, max_rank=3):
                         f'the dimensions)', 'qvm/eval.py', l_rd,
                         facts={'reader': repr(reads[0]),
                                'arridx': repr(expect)})
+    return res
+
+
+def check_accessor(ctx, pid, max_rank=3):
+    """C13: `print a(i, j)` in the debugger accepts exactly the index tuples
+    the machine accepts, and reads the element at offset (i - L) in every
+    dimension of the nested list read_array built."""
+    res = analyse(ctx.repo, max_rank)
+    l_at = _line(ctx.repo, 'qvm.eval', 'QArray', 'at')
+    r = f'{pid}.array-accessor-agrees-with-arridx'
+    ctx.rule(r, 'QArray.at returns an element exactly when every index '
+             'satisfies L_k <= i_k <= U_k (the condition under which '
+             '_exec_arridx does not trap) and reads position i_k - L_k of '
+             'dimension k (polynomial domain: the comparisons left undecided '
+             'on the accepting path, normalised to `p >= 0`, are compared as '
+             'polynomials; ranks 1..%d)' % max_rank)
+    for n, e in sorted(res.items()):
+        key = f'qvm/eval.py:QArray.at:rank{n}'
+        a = e['accessor']
+        if 'unmodelled' in a:
+            ctx.observe(f'{key}: undecided ({a["unmodelled"]})')
+            ctx.instance(r, key, nontrivial=False)
+            continue
+        ctx.instance(r, key, sample={'constraints': sorted(
+            repr(c) for c in a['accepted_when_nonneg'])})
+        # the machine's acceptance condition, from _exec_arridx's own range
+        # tests (index symbols renamed by the dimension they were checked
+        # against)
+        want = set()
+        mach = e['arridx'].get('pairing')
+        if not mach or len(mach) != n:
+            ctx.observe(f'{key}: undecided (arridx side not analysed)')
+            continue
+        for sym, p in mach.items():
+            ks = [k for k in range(n) if p.get('lb') == Poly.var(f'L{k}')]
+            if len(ks) != 1 or 'ub' not in p:
+                want = None
+                break
+            i = Poly.var(f'i{ks[0]}')
+            want.add(i - p['lb'])
+            want.add(p['ub'] - i)
+        if want is None:
+            ctx.observe(f'{key}: undecided (arridx bounds pairing)')
+            continue
+        got = a['accepted_when_nonneg']
+        if got != want:
+            extra = sorted(repr(x) for x in got - want)
+            missing = sorted(repr(x) for x in want - got)
+            ctx.finding(r, key, f'rank {n}: QArray.at accepts an index '
+                        f'tuple when {sorted(repr(x) for x in got)} are all '
+                        f'>= 0; the machine accepts it when '
+                        f'{sorted(repr(x) for x in want)} are (unexpected: '
+                        f'{extra}, missing: {missing})', 'qvm/eval.py', l_at)
+        pos = tuple(a['position'])
+        wantpos = tuple(Poly.var(f'i{k}') - Poly.var(f'L{k}')
+                        for k in range(n))
+        if pos != wantpos:
+            ctx.finding(r, key + ':position', f'rank {n}: QArray.at reads '
+                        f'nested position {list(pos)}, the reader stored '
+                        f'element (i_0..) at {list(wantpos)}',
+                        'qvm/eval.py', l_at)
     return res
